@@ -607,7 +607,7 @@ class Visitor(ast.NodeVisitor):
 
         result = None  # type: Optional[Any]
         has_placeholder = False
-        for value_node in node.values:
+        for i, value_node in enumerate(node.values):
             result = self.visit(value_node)
 
             # Please see "NOTE ABOUT PLACEHOLDERS AND RE-COMPUTATION".
@@ -616,7 +616,9 @@ class Visitor(ast.NodeVisitor):
                 has_placeholder = True
                 continue
 
-            if not has_placeholder:
+            # Python tests the truthiness of an operand only if there are operands left;
+            # the last operand is the result as-is (it might not even have a truth value).
+            if not has_placeholder and i < len(node.values) - 1:
                 if isinstance(node.op, ast.And):
                     if not result:
                         break
